@@ -68,6 +68,8 @@ func c19Consts(r *core.Rng) []constSpec {
 	all := []constSpec{
 		{name: "CI", v: vint(int64(r.Intn(1000)))},
 		{name: "CZ", v: vint(0)},
+		{name: "K9", v: vint(int64(9 + r.Intn(90)))},
+		{name: "C_9A", v: &val{kind: "str", s: "nine"}},
 		{name: "CF", raw: "1.5"},
 		{name: "CFI", raw: "2.0"},
 		{name: "CS", v: &val{kind: "str", s: "const"}},
